@@ -279,7 +279,9 @@ def run(ctx):
     ctx.cov["refuted_variants"] = refuted
 
     # ---- 2. export; the two derivations of the alphabet and the grammars must agree
-    r, lines = export(ctx, "P2P_gen", dict(MAXPRE=1, MAXPOST=2 if quick else 4, CMDS="", KINDS=""), "all")
+    # (quick: of the eight 2^63-ish values of every CompactSize field only two; thorough: all)
+    kinds = sorted(set(c["k"] for c in harness_json(ctx, binp, "alphabet", "a0")) - {"x63m1", "x63m8", "x63m89", "x63m100", "x63", "x62", "valid"})
+    r, lines = export(ctx, "P2P_gen", dict(MAXPRE=1, MAXPOST=2 if quick else 4, CMDS="", KINDS=",".join('"%s"' % k for k in kinds) if quick else ""), "all")
     spec_alpha = set(ckey(json.loads(s)) for s in r.lines("VFC"))
     spec_gram = {}
     for s in r.lines("VFG"):
@@ -300,7 +302,7 @@ def run(ctx):
     sessions += sessions_of(blines, len(sessions) + 1)
     have = set(tuple(ckey(m) for m in s["msgs"]) for s in sessions)
     sessions += [s for s in sessions_of(olines, len(sessions) + 1) if tuple(ckey(m) for m in s["msgs"]) not in have]
-    cap = 12500 if quick else 60000
+    cap = 15000 if quick else 60000
     ctx.cov["sessions_exported"] = len(sessions)
     if len(sessions) > cap:
         rnd = random.Random(ctx.seed)
